@@ -98,6 +98,8 @@ def parseReport (toks : List String) : Option (Report × Env) :=
 def step (l : Log) (toks : List String) : Log × String :=
   match toks with
   | ["reset"] => ([], "ok")
+  -- how the harness constructs its message objects (fresh, or reused and signed again): no effect on the model
+  | ["mode", m] => if m == "resign" || m == "fresh" then (l, "ok") else (l, "bad-op")
   | ["cf", k1, a, k2, b] =>
     match parseDS k1 a, parseDS k2 b with
     | some x, some y => (l, b01 (conflict x y))
